@@ -18,7 +18,8 @@ class C09(Prop):
     id = "C09"
     theorems = ["cum_axes_unchanged", "cum_prefix", "diff1_backward_labels", "diff1_forward_labels",
                 "diff1_centered_labels", "diff1_keepaxis_labels", "diff1_values", "diff1_keepaxis_pad", "diff1_other_axes",
-                "arg_labels"]
+                "arg_labels", "diffAxis_iterate", "diffN_values", "diff2_values", "diffN_total", "diffN_labels", "diffN_empty",
+                "diffN_keepaxis", "cum_last_eq_reduce", "arg_value_spec", "arg_whole_spec", "arg_label_dup_counterexample"]
     rule = ("numeric (float/int) arrays of rank 1-4 with sizes 1-5 along the operated axis, numeric sorted / unsorted and "
             "str labels; cumsum / cumprod (default and every axis by name / position); diff with n in {1,2,3}, the three "
             "schemes and both keepaxis settings; argmin / argmax over the whole array and along each axis, with ties and "
